@@ -14,7 +14,7 @@ OWNERS = {
 }
 
 
-def decorate(b, rng, claims=True, finality=False, storefaults=False):
+def decorate(b, rng, claims=True, finality=False, storefaults=False, l2reorgs=False):
     """add what the model abstracts away: claims per block, position of the finalized pointer, storage faults"""
     steps = []
     fin = rng.choice([3, 4, 5]) if finality else 5
@@ -36,11 +36,14 @@ def decorate(b, rng, claims=True, finality=False, storefaults=False):
             steps.append(dict(a="stop"))
             continue
         steps.append(s)
+        if l2reorgs and s["a"] == "agmove" and s.get("st") == "InError" and rng.random() < 0.5:
+            # the L2 tip is reorged while the last certificate is in error (the driver skips it if a live certificate covers it)
+            steps.append(dict(a="l2reorg", nb=rng.choice([1, 2]), nc=rng.choice([0, 1])))
     return dict(cfg=b["cfg"], steps=steps)
 
 
 def aggsender_check(prop, model_cfgs, gen_cfgs, quick_n, thorough_n, invs, claims=True, finality=False, storefaults=False, assumptions=(),
-                    counterexamples=()):
+                    counterexamples=(), l2reorgs=False):
     res = V.Result(prop)
     sc = V.Scratch(prop)
     try:
@@ -70,7 +73,7 @@ def aggsender_check(prop, model_cfgs, gen_cfgs, quick_n, thorough_n, invs, claim
                 paths = V.drop_prefixes([[json.dumps(c["cfg"], sort_keys=True)] + c["steps"] for c in cases])
                 bs = [dict(cfg=json.loads(p[0]), steps=p[1:]) for p in paths]
                 gstats.append(dict(cfg=cfg, edges=len(cases), behaviours=len(bs), states=gst["distinct"]))
-                behs += [decorate(b, rng, claims, finality, storefaults) for b in sample(bs, thorough_n if thorough else quick_n, rng)]
+                behs += [decorate(b, rng, claims, finality, storefaults, l2reorgs) for b in sample(bs, thorough_n if thorough else quick_n, rng)]
             behs = reg + behs
         else:
             behs = rb
